@@ -271,6 +271,11 @@ def _synonym(ft, args, kws):
             return ("call", ("attr", inner, "reset_index"), (), (("drop", ("const", True)),))
         if name == "numpy.arange" and len(args) == 2 and not kws and args[0] == ("const", 0):
             return ("call", ft, (args[1],), ())  # arange(0, n) is arange(n)
+        if name == "len" and len(args) == 1 and not kws and args[0][0] == "call" and args[0][1] == ("global", "numpy.arange") and len(args[0][2]) == 1 \
+                and not args[0][3] and args[0][2][0][0] == "const" and isinstance(args[0][2][0][1], int) and args[0][2][0][1] >= 0:
+            return args[0][2][0]  # len(arange(n)) is n
+        if name == "numpy.full" and len(args) == 2 and not kws and args[1] == ("global", "numpy.nan"):
+            return ("bin", "*", ("global", "numpy.nan"), ("call", ("global", "numpy.ones"), (args[0],), ()))  # full(n, nan) is nan * ones(n)
         if name == "numpy.reshape" and len(args) == 2 and not kws and args[1][0] == "tuple":
             return ("call", ("attr", args[0], "reshape"), args[1][1], ())
     return None
@@ -413,7 +418,40 @@ class _Eval:
             for p in pa.posonlyargs + pa.args + pa.kwonlyargs:
                 self.env.setdefault(p.arg, ("param", p.arg))
             par = par.parent
+        # ... and locals of the enclosing function that are bound exactly once, at the top level of its body, to a closed expression
+        # (nothing but module-level names and constants: `grid = np.arange(101)`): the nested function sees that value
+        if func.parent is not None and env is None:
+            self._bind_closed_outer_locals(func)
         self.dead = False
+
+    def _bind_closed_outer_locals(self, func):
+        par = func.parent
+        own = {n.id for n in ast.walk(func.node) if isinstance(n, ast.Name) and isinstance(n.ctx, ast.Store)}
+        used = {n.id for n in ast.walk(func.node) if isinstance(n, ast.Name) and isinstance(n.ctx, ast.Load)} - own - set(self.env)
+        if not used:
+            return
+        stores = {}
+        for n in ast.walk(par.node):
+            if isinstance(n, ast.Name) and isinstance(n.ctx, (ast.Store, ast.Del)):
+                stores[n.id] = stores.get(n.id, 0) + 1
+            elif isinstance(n, (ast.FunctionDef, ast.AsyncFunctionDef, ast.ClassDef)) and n is not par.node:
+                stores[n.name] = stores.get(n.name, 0) + 1
+        pa = par.node.args
+        outer_locals = set(stores) | {p.arg for p in pa.posonlyargs + pa.args + pa.kwonlyargs}
+        for st in par.node.body:
+            if not (isinstance(st, ast.Assign) and len(st.targets) == 1 and isinstance(st.targets[0], ast.Name)):
+                continue
+            name = st.targets[0].id
+            if name not in used or stores.get(name) != 1:
+                continue
+            if any(isinstance(n, ast.Name) and n.id in outer_locals for n in ast.walk(st.value)):
+                continue
+            if any(isinstance(n, (ast.Lambda, ast.ListComp, ast.SetComp, ast.DictComp, ast.GeneratorExp, ast.Await, ast.Yield, ast.YieldFrom, ast.NamedExpr)) for n in ast.walk(st.value)):
+                continue
+            try:
+                self.env[name] = _Eval(self.b, par, {}, None, 0, None).expr(st.value)
+            except AnalysisError:
+                pass
 
     # ---------------------------------------------------------------------------------------
     def run(self):
